@@ -66,6 +66,7 @@ type Exec struct {
 	Notes      []string
 	coro       *coroSched
 	pendingBinds []Val
+	SplitIdx   int
 }
 
 func NewExec(p *Program, fn *ssa.Function, mode Mode) *Exec {
@@ -98,7 +99,7 @@ func (x *Exec) assume(st *State, t *T) {
 }
 
 func (x *Exec) oblName(kind, detail string) string {
-	base := x.Label + fnName(x.Fn) + "/" + kind
+	base := fnName(x.Fn) + x.Label + "/" + kind
 	if detail != "" {
 		base += "/" + detail
 	}
